@@ -66,6 +66,25 @@ CLAIMS = {
         technique="static analysis: Java println-template extraction + abstract evaluation of printer/parsers (ast, regex)",
         ref="DESIGN.md §3 C03",
     ),
+    "C02": dict(
+        text=(
+            "Decides that Solver.solve has the shape of a correct refute-and-resolve computation, clause by clause, "
+            "from guard facts and def-use on the source: (REF-5) UNSAT first solve returns False; candidates start as "
+            "the first model on keys and None elsewhere; (REF-1) inside the loop a candidate is only ever demoted to "
+            "None, under candidate[i] != fresh sol of the same variable, after this iteration's solve; (REF-2) the loop "
+            "is `while True`, left only by break under `not backend.solve()`, one add_constraint then one solve per "
+            "iteration; (REF-3) the refuting constraint is Op.OR over a list rebuilt each iteration whose operands are "
+            "variable[i] != candidate[i] for exactly the keys with non-None candidate, all variables scanned; (REF-4) "
+            "key-guarded write-back of all candidates after the loop, no other sol store, True returned; (REF-6) the "
+            "native/fallback partition of the six backends through the class hierarchy equals the property's, the "
+            "selector is try/except NotImplementedError only; (REF-7 = SGR-2..5) deduction-mode replies built from the "
+            "Java wrapper's templates are parsed correctly. Not decided: that this shape computes the intersection of "
+            "all models (the idea itself), the external solvers."
+        ),
+        note="Trusted: the refute-and-resolve idea; the Java wrapper as format definition. A refactoring that moves the loop out of Solver.solve makes the check exit 2 (analysis error), not pass.",
+        technique="static analysis: typestate/shape rules over guard facts and def-use of Solver.solve; class-hierarchy resolution (ast)",
+        ref="DESIGN.md §3 C02",
+    ),
 }
 
 NOT_APPLICABLE = {
